@@ -976,14 +976,29 @@ func NewHierarchyCase(r *rand.Rand, name string) *Case {
 		d.Metadata.Relations[rel] = &openfgav1.RelationMetadata{DirectlyRelatedUserTypes: restr}
 	}
 	group, folder, doc := td("group"), td("folder"), td("doc")
+	// one case in three has conditional edges INSIDE the recursion (a conditional nested membership, a
+	// conditional parent link), declared after the unconditioned form of the same restriction
+	cond := ""
+	if r.Intn(3) == 0 {
+		cond = "c_int"
+		feat["cond-restriction"], feat["cond-tupleset"] = true, true
+	}
 	nested := r.Intn(4) != 0
 	if nested {
-		def(group, "member", this(), Ref("user", "", false, ""), Ref("group", "member", false, ""))
+		gm := []*openfgav1.RelationReference{Ref("user", "", false, ""), Ref("group", "member", false, "")}
+		if cond != "" {
+			gm = append(gm, Ref("group", "member", false, cond))
+		}
+		def(group, "member", this(), gm...)
 		feat["recursive-userset"] = true
 	} else {
 		def(group, "member", this(), Ref("user", "", false, ""))
 	}
-	def(folder, "parent", this(), Ref("folder", "", false, ""))
+	fp := []*openfgav1.RelationReference{Ref("folder", "", false, "")}
+	if cond != "" {
+		fp = append(fp, Ref("folder", "", false, cond))
+	}
+	def(folder, "parent", this(), fp...)
 	fv := []*openfgav1.RelationReference{Ref("user", "", false, "")}
 	if r.Intn(3) != 0 {
 		fv = append(fv, Ref("group", "member", false, ""))
@@ -1027,13 +1042,25 @@ func NewHierarchyCase(r *rand.Rand, name string) *Case {
 	model := &openfgav1.AuthorizationModel{SchemaVersion: "1.1", Conditions: map[string]*openfgav1.Condition{},
 		TypeDefinitions: []*openfgav1.TypeDefinition{{Type: "user"}, group, folder, doc}}
 	perm := &openfgav1.AuthorizationModel{SchemaVersion: "1.1", Conditions: map[string]*openfgav1.Condition{}, TypeDefinitions: []*openfgav1.TypeDefinition{{Type: "user"}}}
-	var all []*openfgav1.RelationReference
-	for _, t := range typeOrder {
-		all = append(all, Ref(t, "", false, ""), Ref(t, "", true, ""))
+	condOpts := []string{""}
+	if cond != "" {
+		for _, t := range condTemplates {
+			if t.name == cond {
+				model.Conditions[cond] = condProto(t)
+				perm.Conditions[cond] = condProto(t)
+			}
+		}
+		condOpts = append(condOpts, cond)
 	}
-	for _, d := range []*openfgav1.TypeDefinition{group, folder, doc} {
-		for rel := range d.Relations {
-			all = append(all, Ref(d.Type, rel, false, ""))
+	var all []*openfgav1.RelationReference
+	for _, co := range condOpts {
+		for _, t := range typeOrder {
+			all = append(all, Ref(t, "", false, co), Ref(t, "", true, co))
+		}
+		for _, d := range []*openfgav1.TypeDefinition{group, folder, doc} {
+			for rel := range d.Relations {
+				all = append(all, Ref(d.Type, rel, false, co))
+			}
 		}
 	}
 	for _, d := range []*openfgav1.TypeDefinition{group, folder, doc} {
@@ -1044,12 +1071,27 @@ func NewHierarchyCase(r *rand.Rand, name string) *Case {
 		perm.TypeDefinitions = append(perm.TypeDefinitions, p)
 	}
 	c := &Case{Name: name, Model: model, Permissive: perm, Features: feat, IDs: ids, Contexts: []*structpb.Struct{nil}}
+	if cond != "" {
+		c.CondNames = []string{cond}
+		c.Contexts = append(c.Contexts, mustStruct(map[string]any{"x": 7}), mustStruct(map[string]any{"x": 50}))
+	}
 	seen := map[string]bool{}
 	add := func(o, rel, u string) {
 		k := o + "#" + rel + "@" + u
 		if !seen[k] && u != o+"#"+rel {
 			seen[k] = true
-			c.Tuples = append(c.Tuples, &openfgav1.TupleKey{Object: o, Relation: rel, User: u})
+			tk := &openfgav1.TupleKey{Object: o, Relation: rel, User: u}
+			// links of the recursion (nested membership, folder parent) are conditional half of the time
+			if cond != "" && ((rel == "member" && strings.Contains(u, "#")) || (rel == "parent" && strings.HasPrefix(o, "folder:"))) && r.Intn(2) == 0 {
+				tk.Condition = &openfgav1.RelationshipCondition{Name: cond}
+				switch r.Intn(3) {
+				case 0:
+					tk.Condition.Context = mustStruct(map[string]any{"x": 3}) // holds whatever the request says
+				case 1:
+					tk.Condition.Context = mustStruct(map[string]any{"x": 50}) // never holds
+				}
+			}
+			c.Tuples = append(c.Tuples, tk)
 		}
 	}
 	pick := func(t string) string { return t + ":" + ids[t][r.Intn(len(ids[t]))] }
